@@ -254,7 +254,8 @@ theorem updateRdata_wire (thr off : Nat) (data : Bytes) (t : Nat) (d : SData) (p
     simp [updateRdata, containsDname, h1, h2, h3, h4, h5, h6, h7, h8]
 
 theorem updateLoop_wire (thr off : Nat) (data : Bytes) : ∀ (rs : List SRec) (p : Nat) (rest : Bytes),
-    At data p (wireRecs rs ++ rest) → (∀ r ∈ rs, r.legal = true) → updateLoop thr off rs.length data p = ok data
+    At data p (wireRecs rs ++ rest) → (∀ r ∈ rs, r.legal = true) →
+    updateLoop thr off rs.length data p = ok (data, p + (wireRecs rs).length)
   | [], _, _, _, _ => rfl
   | r :: rs, p, rest, hat, hl => by
     obtain ⟨hok, hwl, ht, hc, httl, hd⟩ := SRec.legal_facts (hl r List.mem_cons_self)
@@ -299,7 +300,9 @@ theorem updateLoop_wire (thr off : Nat) (data : Bytes) : ∀ (rs : List SRec) (p
     have hat6 : At data (p + (wireName r.owner).length + 10 + r.data.wire.length) (wireRecs rs ++ rest) := by
       have := hat5.right
       rwa [show p + (wireName r.owner).length + 2 + 2 + 4 + 2 = p + (wireName r.owner).length + 10 by omega] at this
-    exact updateLoop_wire thr off data rs _ rest hat6 (fun x hx => hl x (List.mem_cons_of_mem _ hx))
+    rw [updateLoop_wire thr off data rs _ rest hat6 (fun x hx => hl x (List.mem_cons_of_mem _ hx))]
+    rw [wireRecs_cons, List.length_append, SRec.wire_length]
+    congr 2; omega
 
 /-! ### the constructor's walk and `queries` -/
 
